@@ -201,7 +201,7 @@ class Ctx:
     def __init__(self):
         self.n = 0
         self.ufs = {}
-        self.disc = z3.Function("disc", U, z3.IntSort())
+        self.disc = z3.Function("disc", U, z3.BitVecSort(64))
         self.consts = {}
         self.tups = {}
 
@@ -478,8 +478,10 @@ class Interp:
             v = self.eval_place(st, m.group(2))
             d = self.ctx.disc(self.as_u(v))
             srt = self.local_sort(dst) if re.fullmatch(r"_\d+", dst.strip()) else z3.BitVecSort(64)
-            st["pc_aux"].append(z3.And(d >= 0, d < 64))
-            return z3.Int2BV(d, srt.size()) if z3.is_bv_sort(srt) else d
+            st["pc_aux"].append(z3.ULT(d, z3.BitVecVal(64, 64)))
+            if z3.is_bv_sort(srt) and srt.size() != 64:
+                return z3.Extract(srt.size() - 1, 0, d) if srt.size() < 64 else z3.ZeroExt(srt.size() - 64, d)
+            return d
         if m and m.group(1) in ("PtrMetadata", "Len"):
             v = self.eval_operand(st, m.group(2))
             f = self.ctx.uf("len", [U], z3.BitVecSort(64))
@@ -667,7 +669,7 @@ class Interp:
                     ok, val = z3.UGE(a0, b), a0 - b
                 else:
                     ok, val = z3.BVMulNoOverflow(a0, b, False), a0 * b
-                st["pc_aux"].append(c.disc(o) == z3.If(ok, 1, 0))
+                st["pc_aux"].append(c.disc(o) == z3.If(ok, z3.BitVecVal(1, 64), z3.BitVecVal(0, 64)))
                 f = c.uf("proj_Some_0", [U], z3.BitVecSort(w))
                 st["pc_aux"].append(z3.Implies(ok, f(o) == val))
                 return o
@@ -685,7 +687,7 @@ class Interp:
             r = c.fresh(U, "cf")
             d = c.disc(src)
             cont = (d == 0) if is_result else (d == 1)
-            st["pc_aux"].append(c.disc(r) == z3.If(cont, 0, 1))
+            st["pc_aux"].append(c.disc(r) == z3.If(cont, z3.BitVecVal(0, 64), z3.BitVecVal(1, 64)))
             st["cf_src"] = st.get("cf_src", {})
             st["cf_src"][str(r)] = (src, is_result)
             self._cf_links.append((r, src, is_result))
@@ -698,7 +700,7 @@ class Interp:
         if name.endswith("Option::ok_or") or re.search(r"Option::<.*>::ok_or$", raw) or name == "Option::ok_or":
             src = self.as_u(a0)
             r = c.fresh(U, "ok_or")
-            st["pc_aux"].append(c.disc(r) == z3.If(c.disc(src) == 1, 0, 1))
+            st["pc_aux"].append(c.disc(r) == z3.If(c.disc(src) == 1, z3.BitVecVal(0, 64), z3.BitVecVal(1, 64)))
             self._okor_links.append((r, src))
             return r
         # --- atomics
@@ -829,7 +831,7 @@ class Interp:
                 sp = c.fresh(z3.BoolSort(), "spurious")
                 ok = z3.And(ok, z3.Not(sp))
             r = c.fresh(U, "cas")
-            st["pc_aux"].append(c.disc(r) == z3.If(ok, 0, 1))
+            st["pc_aux"].append(c.disc(r) == z3.If(ok, z3.BitVecVal(0, 64), z3.BitVecVal(1, 64)))
             fo = c.uf("proj_Ok_0", [U], z3.BitVecSort(w))
             fe = c.uf("proj_Err_0", [U], z3.BitVecSort(w))
             st["pc_aux"].append(fo(r) == cur)
@@ -846,14 +848,17 @@ class Interp:
         return ret
 
     # ---- driver
-    def run(self, init=None):
+    def run(self, init=None, start="bb0", stop=()):
+        """start/stop: analyse ONE arbitrary iteration of a loop – begin at its header with every local
+        havocked (fresh symbols on first read) and finish a path with status 'backedge' when it returns there."""
         self._cf_links = []
         self._okor_links = []
+        self.stop = set(stop)
         st = {"env": {}, "pc": [], "pc_aux": [], "events": [], "visits": {}}
         if init:
             init(self, st)
         self.results = []
-        self._walk("bb0", st)
+        self._walk(start, st)
         return self.results
 
     def _fork(self, st):
@@ -893,6 +898,9 @@ class Interp:
     def _walk(self, bb, st):
         while True:
             st["visits"][bb] = st["visits"].get(bb, 0) + 1
+            if bb in getattr(self, "stop", ()) and st["visits"][bb] > 1:
+                self._finish(st, "backedge")
+                return
             if st["visits"][bb] > self.loop_bound + 1:
                 self._finish(st, "truncated")
                 return
